@@ -27,6 +27,9 @@ type propCfg struct {
 	QuickBudgetS int  `json:"quick_budget_s"` // wall clock budget of the quick run (default 900)
 	ThorBudgetS  int  `json:"thorough_budget_s"`
 	GoMaxProcs   int  `json:"gomaxprocs"`
+	// ThorScale multiplies the per-process case counts of the random facets in the thorough tier
+	// (default 1): cheap checks are run deeper so that every thorough run is minutes, not seconds.
+	ThorScale float64 `json:"thorough_scale"`
 }
 
 var root string
@@ -83,6 +86,7 @@ func loadCfg(prop string) propCfg {
 				}
 				cfg.Race = c.Race
 				cfg.GoMaxProcs = c.GoMaxProcs
+				cfg.ThorScale = c.ThorScale
 			}
 		}
 	}
@@ -208,6 +212,9 @@ func runProc(bin, prop, tier string, shard, nshards int, outDir string, budget t
 	}
 	if cfg.GoMaxProcs > 0 {
 		cmd.Env = append(cmd.Env, "GOMAXPROCS="+strconv.Itoa(cfg.GoMaxProcs))
+	}
+	if cfg.ThorScale > 0 && os.Getenv("VERIF_THOROUGH_SCALE") == "" {
+		cmd.Env = append(cmd.Env, "VERIF_THOROUGH_SCALE="+strconv.FormatFloat(cfg.ThorScale, 'g', -1, 64))
 	}
 	cmd.Env = append(cmd.Env, extraEnv...)
 	cmd.Stdout = lf
